@@ -49,7 +49,9 @@ class EffectiveDiffusionFunctions:
         -------
         Effective diffusion distance (eps) to be used as (eps*R) in the growth rate equation
         '''
-        return np.interp(supersaturation, self.ohmInterp, self.effDiffInterp)
+        #The limit of 0 at a supersaturation of 1 is not used as a value: at or beyond it the distance of the largest
+        #   tabulated lambda is kept, so that the growth rate (which divides by this distance) stays finite
+        return np.maximum(np.interp(supersaturation, self.ohmInterp, self.effDiffInterp), self.effDiffInterp[-2])
 
     def lambdaLow(self, supersaturation):
         '''
